@@ -9,56 +9,62 @@
 (* for array bounds);  ~ok /\ diag = it stopped with a CompilerError;        *)
 (* ~ok /\ ~diag = it stopped with any other exception (exc = class name).    *)
 (*                                                                           *)
-(* Classify evaluates the record with CConst!Expect (one action per site     *)
-(* family), the second step files it under its status (Compare /             *)
-(* SkipUndefined / SkipNotValid), so TLC's action coverage gives the number  *)
-(* of compared and skipped records.  For the behavioural sites (case labels, *)
-(* bit-field widths) Classify writes the probes (selector / stored words     *)
-(* with the results C requires) to OBS_DIR/<i>.json; the harness runs the IR *)
-(* that ppci produced on exactly these words under IR.tla (CConst_IR).       *)
-EXTENDS CConst, Json, IOUtils
+(* Classify* (one action per site family) evaluates the record with         *)
+(* CConst!Expect, evaluates the three clauses of the property on it and      *)
+(* writes TLC's judgement to OBS_DIR/<i>.json: status (ok / undefined /      *)
+(* skip), reason, the notes, the names of the violated clauses, and for the  *)
+(* behavioural sites (case labels, bit-field widths) the probes (selector /  *)
+(* stored words with the results C requires).  The harness reports the       *)
+(* violated clauses, counts the skipped records and runs the IR that ppci    *)
+(* produced on exactly the probe words under IR.tla (CConst_IR).             *)
+(* (The clauses are not cfg invariants: on a tree with a broken evaluator    *)
+(* most records fail, and TLC rebuilds the trace of every invariant error by *)
+(* regenerating successor states, i.e. by re-evaluating records - minutes    *)
+(* for thousands of failures.  Judging inside the action costs nothing.)     *)
+EXTENDS CConst, Json, IOUtils, SequencesExt
 Recs == JsonDeserialize(IOEnv.TRACE_FILE)
-NChunks == 64
-VARIABLES chunk, i, exp, filed
-vars == <<chunk, i, exp, filed>>
+NChunks == (Len(Recs) \div 2) + 1
+VARIABLES chunk, i, exp
+vars == <<chunk, i, exp>>
 None == [st |-> "", why |-> "", fl |-> {}, bytes |-> <<>>, amount |-> 0, probes |-> <<>>]
-Init == chunk = 0 /\ i = 0 /\ exp = None /\ filed = ""
-PickChunk == chunk = 0 /\ chunk' \in 1..NChunks /\ UNCHANGED <<i, exp, filed>>
-Mine(sites) == {k \in 1..Len(Recs) : k % NChunks = chunk - 1 /\ Recs[k].site \in sites}
-Classify(sites) == /\ chunk > 0 /\ i = 0
-                   /\ \E k \in Mine(sites) : i' = k /\ exp' = Expect(Recs[k])
-                   /\ UNCHANGED <<chunk, filed>>
+(* ---- the clauses of C27, over a record r and its expectation x ------------- *)
+Judged(x) == x.st = "ok"
+\* "A constant that does not fit its destination type is converted, not rejected with an internal error";
+\* more generally no defined constant expression stops the front-end with an internal exception
+NoInternalError(r, x) == Judged(x) => (r.out.ok \/ r.out.diag)
+\* a defined integer constant expression in a valid program is accepted
+Accepted(r, x) == Judged(x) => (r.out.ok \/ ~r.out.diag)
+\* "evaluated exactly as C prescribes, and the value is converted to the destination type"
+ValueAsPrescribed(r, x) ==
+    (Judged(x) /\ r.out.ok) =>
+        CASE r.site \in DataSites -> r.out.bytes = x.bytes
+          [] r.site = "array"     -> r.out.amount = x.amount
+          [] OTHER -> TRUE            \* case / bitfield: judged by CConst_IR on the probes
+Violated(r, x) == (IF NoInternalError(r, x) THEN <<>> ELSE <<"NoInternalError">>)
+                  \o (IF Accepted(r, x) THEN <<>> ELSE <<"Accepted">>)
+                  \o (IF ValueAsPrescribed(r, x) THEN <<>> ELSE <<"ValueAsPrescribed">>)
+Init == chunk = 0 /\ i = 0 /\ exp = None
+PickChunk == chunk = 0 /\ chunk' \in 1..NChunks /\ UNCHANGED <<i, exp>>
+\* the records k with k % NChunks = chunk - 1 (at most three, as NChunks > Len(Recs) / 2)
+Mine(sites) == {k \in {chunk - 1, chunk - 1 + NChunks, chunk - 1 + 2 * NChunks} :
+                   k >= 1 /\ k <= Len(Recs) /\ Recs[k].site \in sites}
+ClassPath(k) == IOEnv.OBS_DIR \o "/" \o ToString(k) \o ".json"
+Classify(sites) ==
+    /\ chunk > 0 /\ i = 0
+    /\ \E k \in Mine(sites) :
+          /\ i' = k /\ exp' = Expect(Recs[k])          \* evaluated once; below only the new value is read
+          /\ JsonSerialize(ClassPath(k), [i |-> k, st |-> exp'.st, why |-> exp'.why, fl |-> SetToSeq(exp'.fl),
+                                          probes |-> exp'.probes, bytes |-> exp'.bytes, amount |-> exp'.amount,
+                                          viol |-> Violated(Recs[k], exp')])
+    /\ UNCHANGED chunk
 ClassifyInitialiser == Classify({"init", "static", "lstatic", "element", "member"})
 ClassifyEnumerator  == Classify({"enum"})
 ClassifyArrayBound  == Classify({"array"})
-ProbePath(k) == IOEnv.OBS_DIR \o "/" \o ToString(k) \o ".json"
-ClassifyBehaviour(site) ==
-    /\ chunk > 0 /\ i = 0
-    /\ \E k \in Mine({site}) :
-          LET x == Expect(Recs[k]) IN
-          /\ i' = k /\ exp' = x
-          /\ (x.st = "ok" /\ Recs[k].out.ok) => JsonSerialize(ProbePath(k), [i |-> k, probes |-> x.probes])
-    /\ UNCHANGED <<chunk, filed>>
-ClassifyCaseLabel == ClassifyBehaviour("case")
-ClassifyBitFieldWidth == ClassifyBehaviour("bitfield")
-File(st, name) == i > 0 /\ filed = "" /\ exp.st = st /\ filed' = name /\ UNCHANGED <<chunk, i, exp>>
-Compare == File("ok", "compared")
-SkipUndefined == File("undefined", "undefined")
-SkipNotValid == File("skip", "notvalid")
+ClassifyCaseLabel == Classify({"case"})
+ClassifyBitFieldWidth == Classify({"bitfield"})
 Next == \/ PickChunk \/ ClassifyInitialiser \/ ClassifyEnumerator \/ ClassifyArrayBound
-        \/ ClassifyCaseLabel \/ ClassifyBitFieldWidth \/ Compare \/ SkipUndefined \/ SkipNotValid
+        \/ ClassifyCaseLabel \/ ClassifyBitFieldWidth
 
-Judged == i > 0 /\ exp.st = "ok"
-Out == Recs[i].out
-\* "A constant that does not fit its destination type is converted, not rejected with an internal error";
-\* more generally no defined constant expression stops the front-end with an internal exception
-NoInternalError == Judged => (Out.ok \/ Out.diag)
-\* a defined integer constant expression in a valid program is accepted
-Accepted == Judged => (Out.ok \/ ~Out.diag)
-\* "evaluated exactly as C prescribes, and the value is converted to the destination type"
-ValueAsPrescribed ==
-    (Judged /\ Out.ok) =>
-        CASE Recs[i].site \in DataSites -> Out.bytes = exp.bytes
-          [] Recs[i].site = "array"     -> Out.amount = exp.amount
-          [] OTHER -> TRUE            \* case / bitfield: judged by CConst_IR on the probes
+TypeOK == /\ exp.st \in {"", "ok", "undefined", "skip"}
+          /\ (i > 0 => exp.st # "")
 =============================================================================
